@@ -82,7 +82,7 @@ def run_variant(args):
         return (v["id"], kind, "fail" , f"ANALYSIS-ERROR {e}")
     except Exception as e:  # pragma: no cover
         import traceback
-        return (v["id"], kind, "fail", "internal error: " + traceback.format_exc()[-400:])
+        return (v["id"], kind, "fail", "internal error: " + " | ".join(traceback.format_exc().strip().splitlines()[-3:]))
     bad = [o for o in obs if not o.ok]
     if kind == "M":
         if any(o.rule in v["rules"] for o in bad):
